@@ -1,6 +1,6 @@
-import glob
 import os
 import re
+import tomllib
 
 import vlib
 
@@ -9,43 +9,38 @@ META = {
     "design_ref": "6/C18",
     "technique": "Coq proof over ALL schedules of a micro-step model (non-atomic lazy cells, instance table, threads) + source scan of every global/shared-state construct compared with the modelled inventory + stress runs: cold processes with 2..64 barrier-released threads whose first calls go into every algorithm, and random single-thread interleavings of instances, both compared with one-at-a-time results",
     "level_text": "PARTIAL. Machine-checked (Props/C18.v, 8 theorems, all closed, no bound on threads or steps): lazy dispatch cells accessed by separate read / compute / store micro-steps (weaker than std::sync::Once) only ever hold None or init(c) and every caller uses init(c) under every schedule (C18_once_cell_any_schedule); each thread's outputs and instance state equal the sequential one-at-a-time run of the operations it executed (C18_concurrent_equals_sequential, C18_concurrent_complete); instances not owned are never written (C18_no_foreign_writes); single-thread interleavings give each instance its own sequential results (C18_interleaving_independent); a thread given 4 micro-steps per operation finishes whatever the others do, so under every fair schedule all outputs are the sequential ones (C18_progress, C18_fair_schedule_sequential); a concrete 3-thread schedule with a racy double initialisation (C18_example_three_threads). OBSERVED, not proved: memory-model effects (torn pointer reads, the real Once), and that the code has no shared mutable state beyond the modelled cells. C18_no_foreign_writes and C18_interleaving_independent hold by construction of the model (an operation is given only its own table entry). Instantiated with a real algorithm (Proofs/FollowupsGroestl.v): C18_groestl256_concurrent_first_use / C18_groestl512_concurrent_first_use (+ C18_groestl256_concurrent_first_use_fair, C18_groestl_no_sse2_all_calls_panic, C18_groestl256_hasher_concurrent_first_use): for every schedule of threads whose first Groestl calls race on the lazily initialised implementation choice, each thread's digest is Spec.Groestl.groestl256/512 of its own message (composed with C07); assumes is_x86_feature_detected! is consistent within a process.",
-    "level_note": "Proved: the scheduling logic, for every schedule. The model's premises are tied to the code by (a) a scan, regenerated on every run, of <repo>/**/src/**/*.rs for static / static mut / thread_local / UnsafeCell / Cell< / RefCell / atomics / lazy_static! / Once* / Lazy* / Mutex / RwLock outside #[cfg(test)] and #[cfg(cryptocorrosion_verif)] items, compared with the modelled inventory (the lazy_static IMPL cell of the dispatch! macro in hashes/groestl/src/compressor.rs, instantiated by six entry points; std's feature-detection cache behind is_x86_feature_detected! has the same read/compute/store shape and lives outside the repository) — any other mutable global is reported with file:line; (b) stress runs whose counts (processes, thread counts, start modes, first algorithms, interleaving rounds) are in coverage.configurations. Only observed: absence of wrong results in those runs.",
+    "level_note": "Proved: the scheduling logic, for every schedule. The model's premises are tied to the code by (a) a scan, regenerated on every run, of every .rs file of the repository (own lexer; build scripts included; tests/ benches/ examples/ and cfg(test) modules only when a library file pulls them in; #[path] / include! targets followed, computed ones such as OUT_DIR reported) for static / static mut / thread_local / UnsafeCell / Cell / RefCell / atomics / lazy_static! / Once* / Lazy* / Mutex / RwLock / unsafe impl Sync outside items whose cfg is test or cryptocorrosion_verif (alone, inside all(..), or any(..) of only those), compared with the modelled inventory recognised by shape (in hashes/groestl: a lazy_static! cell holding one function pointer whose initialiser only selects a path by is_x86_feature_detected!, six expansions; std's feature-detection cache behind is_x86_feature_detected! has the same read/compute/store shape and lives outside the repository) — any other mutable global is reported with file:line; (b) stress runs whose counts (processes, thread counts, start modes, first algorithms, interleaving rounds) are in coverage.configurations. Only observed: absence of wrong results in those runs.",
     "rule": "evaluation = one (thread, algorithm) result of a cold multi-threaded process compared with the sequential reference computed in a separate single-threaded process, or one interleaving round (2..6 instances, random schedule) compared with one-at-a-time; distinct = distinct (thread count, start mode, first algorithm) configurations + distinct (instance kinds, schedule) rounds; all are non-trivial (every input is a non-empty random message)",
     "assumptions": ["x86-64 Linux host; schedules actually exercised are chosen by the OS scheduler", "16 hardware threads: 32/64-thread processes are oversubscribed"],
-    "trusted_extra": ["the regular-expression source scan (comment stripping, skipping of cfg(test)/cfg(cryptocorrosion_verif) items)"],
+    "trusted_extra": ["the source scan of checks/c18.py (its Rust lexer, its item extents for cfg(test)/cfg(cryptocorrosion_verif) skipping, its list of constructs, its shape test for the modelled lazy cells); code produced by macros of external crates or by build scripts is not seen"],
 }
 
-PATTERNS = [
-    ("static mut", re.compile(r"\bstatic\s+mut\b")),
-    ("static", re.compile(r"(?<!')\bstatic\s+(?:ref\s+)?\$?[A-Za-z_][A-Za-z0-9_]*\s*:")),
-    ("thread_local", re.compile(r"\bthread_local\s*!")),
-    ("UnsafeCell", re.compile(r"\bUnsafeCell\b")),
-    ("Cell<", re.compile(r"(?<![A-Za-z])Cell\s*(?:<|::)")),
-    ("RefCell", re.compile(r"\bRefCell\b")),
-    ("atomic", re.compile(r"\bAtomic(?:Bool|U8|U16|U32|U64|Usize|I8|I16|I32|I64|Isize|Ptr)\b")),
-    ("lazy_static!", re.compile(r"\blazy_static\s*!")),
-    ("Once/Lazy", re.compile(r"\b(?:OnceCell|OnceLock|LazyLock|LazyCell|Lazy|Once)\b(?!\s*\()")),
-    ("Mutex/RwLock", re.compile(r"\b(?:Mutex|RwLock|Condvar)\b")),
-]
-INTERIOR = re.compile(r"Cell|Atomic|Mutex|RwLock|Once|Lazy")
+GUARD_CFG = vlib.GUARD     # "cryptocorrosion_verif"
 
-# the modelled inventory: (file relative to the repository, construct) -> what the model has for it
-MODELLED = {
-    ("hashes/groestl/src/compressor.rs", "lazy_static!"): "lazy cell (Model/Concurrency.v cells), one per expansion of dispatch!",
-    ("hashes/groestl/src/compressor.rs", "static"): "the `static ref IMPL` inside that lazy_static!",
-}
-GROESTL_CELLS = 6
+# --------------------------------------------------------------------------
+# (a) source scan: a small Rust lexer + item-level cfg evaluation
+# --------------------------------------------------------------------------
+# token = (kind, text, line); kinds: id, lt (lifetime/label), str, chr, num, p (punctuation)
+
+_ID0 = re.compile(r"[A-Za-z_][A-Za-z0-9_]*")
+_NUM = re.compile(r"[0-9][A-Za-z0-9_]*")
+_RAWSTR = re.compile(r"(?:b|c)?r(#*)\"")
+_PUNCT2 = ("::", "->", "=>", "==", "!=", "<=", ">=", "&&", "||")
 
 
-def strip_comments(src):
-    """remove // and /* */ comments and string literal contents, keep line structure"""
-    out, i, n = [], 0, len(src)
+def lex(src):
+    """Rust tokens without comments; string / char literal CONTENTS are dropped (kind str / chr keeps the raw text
+    only for attribute values such as #[path = "..."])"""
+    toks, i, n, line = [], 0, len(src), 1
     while i < n:
         c = src[i]
-        if src.startswith("//", i):
+        if c == "\n":
+            line += 1; i += 1
+        elif c in " \t\r":
+            i += 1
+        elif src.startswith("//", i):
             j = src.find("\n", i)
-            j = n if j < 0 else j
-            i = j
+            i = n if j < 0 else j
         elif src.startswith("/*", i):
             depth, j = 1, i + 2
             while j < n and depth:
@@ -55,149 +50,715 @@ def strip_comments(src):
                     depth -= 1; j += 2
                 else:
                     j += 1
-            out.append("\n" * src.count("\n", i, j))
+            line += src.count("\n", i, j)
             i = j
-        elif c == '"':
-            j = i + 1
+        elif c == '"' or (c in "bc" and src.startswith('"', i + 1)):
+            s = i
+            j = i + (1 if c == '"' else 2)
             while j < n and src[j] != '"':
                 j += 2 if src[j] == "\\" else 1
-            out.append('""' + "\n" * src.count("\n", i, j))
-            i = j + 1
+            j = min(j + 1, n)
+            toks.append(("str", src[s:j], line))
+            line += src.count("\n", s, j)
+            i = j
+        elif c in "rbc" and _RAWSTR.match(src, i):
+            m = _RAWSTR.match(src, i)
+            close = '"' + m.group(1)
+            j = src.find(close, m.end())
+            j = n if j < 0 else j + len(close)
+            toks.append(("str", src[i:j], line))
+            line += src.count("\n", i, j)
+            i = j
+        elif c == "'" or (c == "b" and src.startswith("'", i + 1)):
+            q = i if c == "'" else i + 1            # position of the opening quote
+            if q + 1 < n and src[q + 1] == "\\":     # escaped char literal: '\n' '\'' '\\' '\x7f' '\u{1F600}'
+                j = src.find("'", q + 3)
+                j = n if j < 0 else j + 1
+                toks.append(("chr", src[i:j], line)); i = j
+            elif q + 2 < n and src[q + 2] == "'" and src[q + 1] != "'":   # 'x'  '"'  '{'
+                toks.append(("chr", src[i:q + 3], line)); i = q + 3
+            else:                                   # lifetime or loop label
+                m = _ID0.match(src, q + 1)
+                j = m.end() if m else q + 1
+                toks.append(("lt", src[i:j], line)); i = j
+        elif c == "r" and src.startswith("#", i + 1) and _ID0.match(src, i + 2):   # raw identifier r#type
+            m = _ID0.match(src, i + 2)
+            toks.append(("id", m.group(0), line)); i = m.end()
+        elif _ID0.match(src, i):
+            m = _ID0.match(src, i)
+            toks.append(("id", m.group(0), line)); i = m.end()
+        elif c.isdigit():
+            m = _NUM.match(src, i)
+            toks.append(("num", m.group(0), line)); i = m.end()
+        elif src[i:i + 2] in _PUNCT2:
+            toks.append(("p", src[i:i + 2], line)); i += 2
         else:
-            out.append(c)
-            i += 1
-    return "".join(out)
+            toks.append(("p", c, line)); i += 1
+    return toks
 
 
-CFG = re.compile(r"#\[cfg\(([^\]]*)\)\]")
+_OPEN = {"(": ")", "[": "]", "{": "}"}
+_CLOSE = set(_OPEN.values())
 
 
-def blank_guarded(src):
-    """blank out items behind #[cfg(test)] / #[cfg(cryptocorrosion_verif)] (not behind not(...))"""
-    s = list(src)
-    pos = 0
-    text = src
-    while True:
-        m = CFG.search(text, pos)
-        if not m:
-            break
-        pos = m.end()
-        cond = m.group(1)
-        if not re.search(r"\b(test|cryptocorrosion_verif)\b", cond) or "not(" in cond:
+def brackets(toks):
+    """-> (match: open index -> close index (and back), parent: token index -> index of the innermost enclosing open bracket or -1)"""
+    match, parent, stack = {}, [], []
+    for i, (k, t, _) in enumerate(toks):
+        if k == "p" and t in _CLOSE and stack and _OPEN[toks[stack[-1]][1]] == t:
+            o = stack.pop()
+            match[o] = i; match[i] = o
+        parent.append(stack[-1] if stack else -1)
+        if k == "p" and t in _OPEN:
+            stack.append(i)
+    for o in stack:                     # unbalanced (should not happen in code that compiles): close at the end
+        match[o] = len(toks)
+    return match, parent
+
+
+def split_commas(toks, lo, hi, match):
+    """token index ranges [a, b) of the comma-separated members of toks[lo:hi] (top level only)"""
+    out, a, j = [], lo, lo
+    while j < hi:
+        t = toks[j]
+        if t[0] == "p" and t[1] in _OPEN and j in match:
+            j = match[j] + 1
             continue
-        j, n = m.end(), len(text)
-        while j < n and text[j] not in "{;":
+        if t[0] == "p" and t[1] == ",":
+            out.append((a, j)); a = j + 1
+        j += 1
+    if a < hi:
+        out.append((a, hi))
+    return out
+
+
+OFF_CFGS = ("test", GUARD_CFG)
+
+
+def cfg_surely_off(toks, lo, hi, match):
+    """is the cfg predicate toks[lo:hi] false in every build of the library that is not a test build and does not
+    pass --cfg cryptocorrosion_verif?  Only `test`, `cryptocorrosion_verif`, all(.. one such ..), any(.. only such ..);
+    everything else (features, not(..), target tests) counts as possibly on."""
+    if hi - lo == 1:
+        return toks[lo][0] == "id" and toks[lo][1] in OFF_CFGS
+    if hi - lo >= 3 and toks[lo][0] == "id" and toks[lo + 1][1] == "(" and match.get(lo + 1) == hi - 1:
+        members = split_commas(toks, lo + 2, hi - 1, match)
+        if toks[lo][1] == "all":
+            return any(cfg_surely_off(toks, a, b, match) for a, b in members)
+        if toks[lo][1] == "any":
+            return bool(members) and all(cfg_surely_off(toks, a, b, match) for a, b in members)
+    return False
+
+
+ITEM_KW = {"pub", "fn", "mod", "struct", "enum", "union", "impl", "use", "static", "const", "type", "trait", "unsafe",
+           "extern", "let", "async", "default", "macro_rules", "crate"}
+
+
+def item_end(toks, s, match, parent):
+    """index of the last token of the item / statement / field / arm that starts at token s"""
+    n = len(toks)
+    limit = match.get(parent[s], n) if s < n and parent[s] >= 0 else n
+    if s >= limit:
+        return max(s - 1, 0)
+    itemlike = toks[s][1] in ITEM_KW or (toks[s][0] == "id" and s + 1 < n and toks[s + 1][1] == "!")
+    j = s
+    while j < limit:
+        k, t, _ = toks[j]
+        if k == "p" and t in _OPEN and j in match:
+            if t == "{":
+                return min(match[j], limit - 1)
+            j = match[j] + 1
+            continue
+        if k == "p" and (t == ";" or (t == "," and not itemlike)):
+            return j
+        j += 1
+    return limit - 1
+
+
+def str_value(tok):
+    m = re.match(r'^(?:b|c)?r?#*"(.*?)"#*$', tok[1], re.S)
+    return m.group(1) if m else None
+
+
+class Source:
+    """one .rs file: tokens, which of them are live (not behind cfg(test) / cfg(cryptocorrosion_verif)), module references"""
+
+    def __init__(self, rel, text):
+        self.rel = rel
+        self.lines = text.split("\n")
+        self.toks = lex(text)
+        self.match, self.parent = brackets(self.toks)
+        n = len(self.toks)
+        self.live = [True] * n
+        self.whole_file_off = False
+        self.refs = []        # (kind, target | None, line, live)   kind: path | include | mod
+        self.off_mods = []    # (name, explicit path | None): out-of-line modules behind a cfg that is off
+        self._walk()
+
+    def _attr(self, i):
+        """if an attribute starts at token i: (index after it, inner?, name, lo, hi of the argument tokens) else None"""
+        t = self.toks
+        if t[i][1] != "#" or t[i][0] != "p":
+            return None
+        j = i + 1
+        inner = j < len(t) and t[j][1] == "!" and t[j][0] == "p"
+        if inner:
             j += 1
-        if j < n and text[j] == "{":
-            depth = 0
+        if j >= len(t) or t[j][1] != "[" or j not in self.match:
+            return None
+        c = self.match[j]
+        name = t[j + 1][1] if j + 1 < c else ""
+        return c + 1, inner, name, j + 2, c
+
+    def _kill(self, a, b):
+        for k in range(a, min(b + 1, len(self.live))):
+            self.live[k] = False
+
+    def _walk(self):
+        t, n, i = self.toks, len(self.toks), 0
+        while i < n:
+            a = self._attr(i)
+            if a is None:
+                i += 1
+                continue
+            # a run of consecutive attributes
+            first, attrs, j = i, [], i
             while j < n:
-                if text[j] == "{":
-                    depth += 1
-                elif text[j] == "}":
-                    depth -= 1
-                    if depth == 0:
-                        break
+                a = self._attr(j)
+                if a is None:
+                    break
+                attrs.append(a); j = a[0]
+            off_outer = off_inner = False
+            path = None
+            for (_, inner, name, lo, hi) in attrs:
+                if name == "cfg" and hi - lo >= 2 and t[lo][1] == "(" and self.match.get(lo) == hi - 1:
+                    if cfg_surely_off(t, lo + 1, hi - 1, self.match):
+                        if inner:
+                            off_inner = True
+                        else:
+                            off_outer = True
+                if name == "path":
+                    vals = [str_value(x) for x in t[lo:hi] if x[0] == "str"]
+                    path = vals[0] if vals else None
+                    self.refs.append(("path", path, t[first][2], None))
+                if name == "cfg_attr":
+                    # #[cfg_attr(pred, path = "..")]: the module source depends on the configuration; follow it always
+                    ids = [x[1] for x in t[lo:hi] if x[0] == "id"]
+                    if "path" in ids:
+                        vals = [str_value(x) for x in t[lo:hi] if x[0] == "str"]
+                        self.refs.append(("path", vals[-1] if vals else None, t[first][2], None))
+            if off_inner:
+                # #![cfg(test)]: the rest of the enclosing module (or file) is off
+                p = self.parent[first]
+                end = self.match.get(p, n) if p >= 0 else n
+                if p < 0:
+                    self.whole_file_off = True
+                self._kill(first, end - 1)
+                i = end
+                continue
+            if off_outer and j < n:
+                e = item_end(t, j, self.match, self.parent)
+                # an out-of-line module behind the cfg: its file is off as well
+                k = j
+                if t[k][1] == "pub":
+                    k += 1
+                    if k < n and t[k][1] == "(" and k in self.match:
+                        k = self.match[k] + 1
+                if k + 2 <= e and t[k][1] == "mod" and t[k + 1][0] == "id" and t[k + 2][1] == ";":
+                    self.off_mods.append((t[k + 1][1], path))
+                self._kill(first, e)
+                i = e + 1
+                continue
+            i = j if j > i else i + 1
+        # the references are live iff their first token is
+        fixed = []
+        line_live = {}
+        for k, tok in enumerate(t):
+            line_live.setdefault(tok[2], self.live[k])
+        for kind, target, line, _ in self.refs:
+            fixed.append((kind, target, line, line_live.get(line, True)))
+        self.refs = fixed
+        # include!(..)
+        for k in range(n - 2):
+            if t[k][0] == "id" and t[k][1] == "include" and t[k + 1][1] == "!" and t[k + 2][1] in _OPEN and k + 2 in self.match:
+                inner = t[k + 3:self.match[k + 2]]
+                target = str_value(inner[0]) if len(inner) == 1 and inner[0][0] == "str" else None
+                self.refs.append(("include", target, t[k][2], self.live[k]))
+
+    def text_at(self, line):
+        return self.lines[line - 1].strip()[:160] if 0 < line <= len(self.lines) else ""
+
+
+SIMPLE_TYPES = {"UnsafeCell": "UnsafeCell", "SyncUnsafeCell": "UnsafeCell", "RefCell": "RefCell",
+                "OnceCell": "Once/Lazy", "OnceLock": "Once/Lazy", "LazyLock": "Once/Lazy", "LazyCell": "Once/Lazy",
+                "OnceBox": "Once/Lazy", "OnceRef": "Once/Lazy", "ONCE_INIT": "Once/Lazy",
+                "Mutex": "Mutex/RwLock", "RwLock": "Mutex/RwLock", "Condvar": "Mutex/RwLock", "ReentrantMutex": "Mutex/RwLock"}
+# names that are also plausible identifiers of the crates' own (enum variants, structs): only in type / path position
+AMBIGUOUS_TYPES = {"Cell": "Cell<", "Once": "Once/Lazy", "Lazy": "Once/Lazy"}
+TYPE_PREV = {":", "&", "mut", "<", "->", "dyn"}
+ATOMIC = re.compile(r"^Atomic[A-Z][A-Za-z0-9]*$")
+INTERIOR = re.compile(r"Cell|Atomic|Mutex|RwLock|Once|Lazy|Condvar")
+
+
+def constructs(src):
+    """global / shared state constructs in the live tokens of a Source: dicts with tok = token index"""
+    t, n, out = src.toks, len(src.toks), []
+    in_use = [False] * n
+    i = 0
+    while i < n:
+        if src.live[i] and t[i][0] == "id" and t[i][1] == "use" and (i == 0 or t[i - 1][1] not in ("$", "::", ".")):
+            j = i
+            while j < n and t[j][1] != ";":
+                in_use[j] = True; j += 1
+            i = j
+        i += 1
+
+    def add(i, construct, **kw):
+        out.append(dict(file=src.rel, line=t[i][2], construct=construct, text=src.text_at(t[i][2]), tok=i, **kw))
+
+    for i in range(n):
+        if not src.live[i] or in_use[i]:
+            continue
+        k, x, _ = t[i]
+        if k != "id":
+            continue
+        nxt = t[i + 1][1] if i + 1 < n else ""
+        prv = t[i - 1][1] if i > 0 else ""
+        if x == "static":
+            if nxt == "mut":
+                add(i, "static mut")
+                continue
+            j = i + 1
+            if j < n and t[j][1] == "ref":
                 j += 1
-        for k in range(m.start(), min(j + 1, n)):
-            if s[k] != "\n":
-                s[k] = " "
-        text = "".join(s)
-        pos = min(j + 1, n)
-    return text
+            if j < n and t[j][1] == "$":
+                j += 1
+            if j + 1 < n and t[j][0] == "id" and t[j + 1][1] == ":":
+                a = b = j + 2
+                while b < n and t[b][1] not in ("=", ";"):
+                    b = src.match[b] + 1 if (t[b][1] in _OPEN and b in src.match) else b + 1
+                ty = t[a:min(b, n)]
+                interior = any(INTERIOR.search(y[1]) for y in ty if y[0] == "id") or \
+                    any(ty[q][1] == "*" and ty[q + 1][1] == "mut" for q in range(len(ty) - 1))
+                add(i, "static", name=t[j][1], interior=interior)
+        elif x == "thread_local":
+            add(i, "thread_local")
+        elif x == "lazy_static" and nxt == "!":
+            add(i, "lazy_static!")
+        elif x in SIMPLE_TYPES:
+            add(i, SIMPLE_TYPES[x])
+        elif ATOMIC.match(x):
+            add(i, "atomic")
+        elif x in AMBIGUOUS_TYPES and (nxt in ("<", "::") or prv in TYPE_PREV):
+            add(i, AMBIGUOUS_TYPES[x])
+        elif x == "impl" and prv == "unsafe":
+            j = i + 1
+            while j < n and t[j][1] not in ("for", "{", ";"):
+                j += 1
+            if any(y[1] == "Sync" for y in t[i:j]):
+                add(i, "unsafe impl Sync")
+        elif x in ("set_var", "remove_var") and prv == "::":
+            add(i, "process environment")
+    return out
+
+
+# ---- the modelled inventory, recognised by shape -------------------------------------------------
+# Model/Concurrency.v has lazy cells: option value, read / compute / store, the initialiser a deterministic function of
+# the CPU oracle. In the code that is: a lazy_static! cell in the groestl crate holding ONE function pointer whose
+# initialiser does nothing but choose a path by is_x86_feature_detected!(..). Six instances (Proofs/FollowupsGroestl.v).
+MODEL_CRATE = "hashes/groestl"
+GROESTL_CELLS = 6
+INIT_MACROS = {"is_x86_feature_detected", "panic", "unreachable", "unimplemented", "cfg"}
+INIT_WORDS_FORBIDDEN = {"static", "let", "unsafe", "mut", "loop", "while", "for", "match", "return", "move", "as", "fn", "const"}
+
+
+def macro_defs(src):
+    """macro_rules! NAME { .. } definitions: (name, open index, close index)"""
+    t, out = src.toks, []
+    for i in range(len(t) - 3):
+        if t[i][1] == "macro_rules" and t[i + 1][1] == "!" and t[i + 2][0] == "id" and t[i + 3][1] in _OPEN and i + 3 in src.match:
+            out.append((t[i + 2][1], i + 3, src.match[i + 3]))
+    return out
+
+
+def fn_pointer_aliases(src):
+    """type NAME<..> = [unsafe] [extern ".."] fn(..) ..;"""
+    t, out = src.toks, set()
+    for i in range(len(t) - 2):
+        if t[i][1] == "type" and t[i][0] == "id" and t[i + 1][0] == "id" and src.live[i]:
+            j = i + 2
+            while j < len(t) and t[j][1] not in ("=", ";"):
+                j += 1
+            e = j
+            while e < len(t) and t[e][1] != ";":
+                e += 1
+            body = t[j + 1:e]
+            if any(y[1] == "fn" for y in body) and not any(y[0] == "id" and INTERIOR.search(y[1]) for y in body):
+                out.add(t[i + 1][1])
+    return out
+
+
+def _selector_only(toks_, local_fns, depth=0):
+    """does this token list do nothing but select a path by CPU feature detection? -> (ok, reason)"""
+    seen_probe = False
+    i, n = 0, len(toks_)
+    while i < n:
+        k, x, _ = toks_[i]
+        nxt = toks_[i + 1][1] if i + 1 < n else ""
+        if k == "p" and x == "$" and i + 1 < n and toks_[i + 1][0] == "id":
+            i += 2              # a macro metavariable ($fn): a name, whatever it is called
+            continue
+        if k == "id":
+            if x in INIT_WORDS_FORBIDDEN:
+                return False, "`%s` in the initialiser" % x
+            if nxt == "!":
+                if x not in INIT_MACROS:
+                    return False, "macro %s! in the initialiser" % x
+                seen_probe |= x == "is_x86_feature_detected"
+                # skip the macro's argument group
+                if i + 2 < n and toks_[i + 2][1] in _OPEN:
+                    d, j = 0, i + 2
+                    while j < n:
+                        if toks_[j][1] in _OPEN:
+                            d += 1
+                        elif toks_[j][1] in _CLOSE:
+                            d -= 1
+                            if d == 0:
+                                break
+                        j += 1
+                    i = j + 1
+                    continue
+            elif nxt == "(":
+                if x in local_fns and depth < 2 and i + 2 < n and toks_[i + 2][1] == ")":
+                    ok, why = _selector_only(local_fns[x], local_fns, depth + 1)
+                    if not ok:
+                        return False, "%s(): %s" % (x, why)
+                    seen_probe |= why == "probe"
+                    i += 3
+                    continue
+                return False, "call of %s(..) in the initialiser" % x
+        elif k == "p":
+            if x not in ("{", "}", "(", ")", "::", "$", "!", "&&", "||", ",", ";"):
+                return False, "`%s` in the initialiser" % x
+        elif k not in ("str",):
+            return False, "literal %s in the initialiser" % x
+        i += 1
+    return True, ("probe" if seen_probe else "no probe")
+
+
+def dispatch_cells(sources):
+    """lazy_static! cells of the modelled crate with the modelled shape.
+    -> (cells, expansions) ; cell = {file, line, name, macro, expansions, ok, why, toks: (file, lo, hi)}"""
+    cells = []
+    crate_sources = [s for s in sources if (s.rel.replace(os.sep, "/") + "/").startswith(MODEL_CRATE + "/") and s.role == "library"]
+    for src in crate_sources:
+        t = src.toks
+        defs = macro_defs(src)
+        aliases = fn_pointer_aliases(src)
+        for i in range(len(t) - 2):
+            if not (src.live[i] and t[i][1] == "lazy_static" and t[i][0] == "id" and t[i + 1][1] == "!" and t[i + 2][1] in _OPEN and i + 2 in src.match):
+                continue
+            lo, hi = i + 3, src.match[i + 2]
+            cell = {"file": src.rel, "line": t[i][2], "name": None, "macro": None, "expansions": 1, "ok": False, "why": "", "span": (lo, hi), "at": i}
+            cells.append(cell)
+            # body: [attrs] [pub [(..)]] static ref NAME : TYPE = INIT ;   and nothing else
+            j = lo
+            while True:
+                a = src._attr(j) if j < hi else None
+                if not a:
+                    break
+                j = a[0]
+            if j < hi and t[j][1] == "pub":
+                j += 1
+                if j < hi and t[j][1] == "(" and j in src.match:
+                    j = src.match[j] + 1
+            if not (j + 3 < hi and t[j][1] == "static" and t[j + 1][1] == "ref" and t[j + 2][0] == "id" and t[j + 3][1] == ":"):
+                cell["why"] = "not a single `static ref NAME: T = init;`"
+                continue
+            cell["name"] = t[j + 2][1]
+            a = b = j + 4
+            while b < hi and t[b][1] != "=":
+                b = src.match[b] + 1 if (t[b][1] in _OPEN and b in src.match) else b + 1
+            ty = t[a:b]
+            e = b + 1
+            while e < hi and t[e][1] != ";":
+                e = src.match[e] + 1 if (t[e][1] in _OPEN and e in src.match) else e + 1
+            init = t[b + 1:e]
+            if [y for y in t[e + 1:hi] if y[1] != ";"]:
+                cell["why"] = "more than one cell in the lazy_static! block"
+                continue
+            # local zero-argument functions visible from the cell (same macro body, or the file)
+            inside = [d for d in defs if d[1] < i < d[2]]
+            scope = (inside[-1][1], inside[-1][2]) if inside else (0, len(t))
+            local_fns = {}
+            for q in range(scope[0], scope[1] - 3):
+                if t[q][1] == "fn" and t[q + 1][0] == "id" and t[q + 2][1] == "(" and t[q + 3][1] == ")":
+                    r = q + 4
+                    while r < scope[1] and t[r][1] not in ("{", ";"):
+                        r += 1
+                    if r < scope[1] and t[r][1] == "{" and r in src.match:
+                        local_fns[t[q + 1][1]] = t[r + 1:src.match[r]]
+            ok, why = _selector_only(init, local_fns)
+            if not ok or why != "probe":
+                cell["why"] = why if not ok else "the initialiser does not consult is_x86_feature_detected!"
+                continue
+            metavar = len(ty) == 2 and ty[0][1] == "$"
+            fnptr = any(y[1] == "fn" for y in ty) or (ty and ty[0][0] == "id" and ty[0][1] in aliases)
+            if any(y[0] == "id" and INTERIOR.search(y[1]) for y in ty):
+                cell["why"] = "cell type has interior mutability"
+                continue
+            if inside:
+                name = inside[-1][0]
+                cell["macro"] = name
+                uses = []
+                for s2 in crate_sources:
+                    d2 = [d for d in macro_defs(s2) if d[0] == name]
+                    al2 = fn_pointer_aliases(s2) | aliases
+                    t2 = s2.toks
+                    for q in range(len(t2) - 2):
+                        if s2.live[q] and t2[q][0] == "id" and t2[q][1] == name and t2[q + 1][1] == "!" and t2[q + 2][1] in _OPEN \
+                                and q + 2 in s2.match and not any(d[1] < q < d[2] for d in d2) and (q == 0 or t2[q - 1][1] != "!"):
+                            args = t2[q + 3:s2.match[q + 2]]
+                            uses.append(any(y[1] == "fn" or (y[0] == "id" and y[1] in al2) for y in args))
+                cell["expansions"] = len(uses)
+                if metavar and not all(uses):
+                    cell["why"] = "an expansion of %s! is not given a function-pointer type" % name
+                    continue
+                if not metavar and not fnptr:
+                    cell["why"] = "cell type is not a function pointer"
+                    continue
+            elif not fnptr:
+                cell["why"] = "cell type is not a function pointer"
+                continue
+            cell["ok"] = True
+            cell["why"] = "lazy cell holding a function pointer chosen by CPU feature detection"
+    return cells
+
+
+# ---- which files ---------------------------------------------------------------------------------
+TEST_DIRS = ("tests", "benches", "examples")
+
+
+def crate_dirs(repo):
+    out = []
+    for root, dirs, files in os.walk(repo):
+        dirs[:] = sorted(d for d in dirs if d not in ("target", ".git"))
+        if "Cargo.toml" in files:
+            try:
+                t = tomllib.load(open(os.path.join(root, "Cargo.toml"), "rb"))
+            except Exception:  # noqa
+                t = {}
+            if "package" in t:
+                out.append((os.path.relpath(root, repo), t))
+    return out
+
+
+def rs_files(repo):
+    out = []
+    for root, dirs, files in os.walk(repo):
+        dirs[:] = sorted(d for d in dirs if d not in ("target", ".git"))
+        for f in sorted(files):
+            if f.endswith(".rs"):
+                out.append(os.path.relpath(os.path.join(root, f), repo))
+    return out
+
+
+def load_sources(repo):
+    """every .rs file of the repository, each with a role:
+    library     compiled into a crate's library / binary in a normal build (everything that is not shown to be one of the others)
+    build       a build script (runs at build time; still scanned: it may generate code)
+    test-only   integration tests / benches / examples (cargo's directory convention or [[test]]/[[bench]]/[[example]] path),
+                out-of-line modules behind cfg(test), files under #![cfg(test)] - unless a library file pulls them in"""
+    crates = crate_dirs(repo)
+    norm = lambda p: os.path.normpath(p).replace(os.sep, "/")
+    explicit_test, explicit_lib, build_scripts = set(), set(), set()
+    for cdir, t in crates:
+        for sect in ("test", "bench", "example"):
+            for e in t.get(sect, []) if isinstance(t.get(sect), list) else []:
+                if isinstance(e, dict) and "path" in e:
+                    explicit_test.add(norm(os.path.join(cdir, e["path"])))
+        for e in ([t.get("lib")] if isinstance(t.get("lib"), dict) else []) + (t.get("bin") if isinstance(t.get("bin"), list) else []):
+            if isinstance(e, dict) and "path" in e:
+                explicit_lib.add(norm(os.path.join(cdir, e["path"])))
+        b = t["package"].get("build")
+        if isinstance(b, str):
+            build_scripts.add(norm(os.path.join(cdir, b)))
+        elif b is not False and os.path.exists(os.path.join(repo, cdir, "build.rs")):
+            build_scripts.add(norm(os.path.join(cdir, "build.rs")))
+    cdirs = sorted((norm(c) for c, _ in crates), key=len, reverse=True)
+    sources = {}
+    for rel in rs_files(repo):
+        r = norm(rel)
+        try:
+            text = open(os.path.join(repo, rel), errors="replace").read()
+        except OSError:
+            continue
+        s = Source(rel, text)
+        owner = next((c for c in cdirs if c == "." or (r + "/").startswith(c + "/")), None)
+        inner = r if owner in (None, ".") else r[len(owner) + 1:]
+        s.crate = owner
+        if r in build_scripts:
+            s.role = "build"
+        elif r in explicit_lib:
+            s.role = "library"
+        elif r in explicit_test or inner.split("/")[0] in TEST_DIRS or s.whole_file_off:
+            s.role = "test-only"
+        else:
+            s.role = "library"
+        sources[r] = s
+    # out-of-line modules behind cfg(test) / cfg(cryptocorrosion_verif)
+    for r, s in list(sources.items()):
+        d = os.path.dirname(r)
+        stem = os.path.splitext(os.path.basename(r))[0]
+        for name, path in s.off_mods:
+            cands = [os.path.join(d, path)] if path else [os.path.join(d, name + ".rs"), os.path.join(d, name, "mod.rs"),
+                                                           os.path.join(d, stem, name + ".rs"), os.path.join(d, stem, name, "mod.rs")]
+            for c in cands:
+                c = norm(c)
+                if c in sources and c not in explicit_lib:
+                    sources[c].role = "test-only"
+                    sub = c[:-3] if not c.endswith("/mod.rs") else os.path.dirname(c)
+                    for r2, s2 in sources.items():       # its sub-modules
+                        if (r2 + "/").startswith(sub + "/"):
+                            s2.role = "test-only"
+    # live #[path] / include! references from non-test files pull their targets in; unresolved ones are findings
+    problems = []
+    changed = True
+    while changed:
+        changed = False
+        for r, s in sources.items():
+            if s.role == "test-only":
+                continue
+            for kind, target, line, live in s.refs:
+                if not live:
+                    continue
+                if target is not None:
+                    c = norm(os.path.join(os.path.dirname(r), target))
+                    if c in sources:
+                        if sources[c].role == "test-only":
+                            sources[c].role = "library"; changed = True
+                        continue
+                    if kind == "include" and not target.endswith(".rs") and os.path.exists(os.path.join(repo, c)):
+                        # include! of a non-.rs file is still code: scan it
+                        try:
+                            s2 = Source(c, open(os.path.join(repo, c), errors="replace").read())
+                            s2.crate, s2.role = s.crate, "library"
+                            sources[c] = s2; changed = True
+                            break
+                        except OSError:
+                            pass
+                key = (r, line)
+                if key not in [(p["file"], p["line"]) for p in problems]:
+                    problems.append({"file": s.rel, "line": line, "construct": "code outside the scanned files",
+                                     "text": s.text_at(line),
+                                     "why": ("%s target %r is not a file of the repository" % (kind, target)) if target is not None else
+                                            "include!/#[path] target is computed (OUT_DIR / concat! / env!): generated code cannot be scanned"})
+            if changed:
+                break
+    return list(sources.values()), problems, sorted(build_scripts)
 
 
 def scan(repo):
-    findings, files = [], 0
-    feature_probes = 0
-    for path in sorted(glob.glob(os.path.join(repo, "**", "src", "**", "*.rs"), recursive=True)):
-        rel = os.path.relpath(path, repo)
-        if rel.startswith("target" + os.sep) or (os.sep + "target" + os.sep) in rel:
+    sources, problems, build_scripts = load_sources(repo)
+    findings, test_only, probes = [], [], 0
+    for s in sources:
+        cs = constructs(s)
+        if s.role == "test-only":
+            test_only += cs
             continue
-        files += 1
-        raw = open(path, errors="replace").read()
-        txt = blank_guarded(strip_comments(raw))
-        feature_probes += len(re.findall(r"is_x86_feature_detected\s*!", txt))
-        rawlines = raw.split("\n")
-        for n, line in enumerate(txt.split("\n"), 1):
-            if re.match(r"\s*(extern\s+crate|use)\b", line):
-                # an import is not a cell; what it imports is found where it is used
-                if not re.search(r"\bstatic\b", line):
-                    continue
-            for name, rx in PATTERNS:
-                if rx.search(line):
-                    if name == "static" and re.search(r"\bstatic\s+mut\b", line):
-                        continue
-                    findings.append({"file": rel, "line": n, "construct": name,
-                                     "text": rawlines[n - 1].strip()[:160]})
-    return findings, files, feature_probes
+        findings += cs
+        probes += sum(1 for k in range(len(s.toks) - 1)
+                      if s.live[k] and s.toks[k][1] == "is_x86_feature_detected" and s.toks[k + 1][1] == "!")
+    for p in problems:
+        findings.append(dict(p, tok=-1))
+    return sources, findings, test_only, probes, build_scripts
 
 
-def classify(repo, findings):
-    """-> (modelled, immutable, unmodelled)"""
+def classify(sources, findings):
+    """-> (modelled, immutable, unmodelled, cells)"""
+    cells = dispatch_cells(sources)
+    ok_cells = [c for c in cells if c["ok"]]
     modelled, immutable, unmodelled = [], [], []
     for f in findings:
-        key = (f["file"].replace(os.sep, "/"), f["construct"])
-        if key in MODELLED and (f["construct"] != "static" or re.search(r"\bstatic\s+ref\s+IMPL\b", f["text"])):
-            modelled.append(dict(f, model=MODELLED[key]))
-        elif f["construct"] == "static" and not INTERIOR.search(
-                (re.search(r"\bstatic\s+(?:ref\s+)?\$?\w+\s*:\s*([^=;]*)", f["text"]) or re.search("(.*)", f["text"])).group(1)):
+        cell = next((c for c in ok_cells if c["file"] == f["file"] and
+                     ((f["construct"] == "lazy_static!" and f["tok"] == c["at"]) or
+                      (f["construct"] == "static" and c["span"][0] <= f["tok"] < c["span"][1]))), None)
+        if cell:
+            modelled.append(dict(f, model="lazy cell (Model/Concurrency.v cells): %s; %d expansion(s)%s" % (
+                cell["why"], cell["expansions"], (" of %s!" % cell["macro"]) if cell["macro"] else "")))
+        elif f["construct"] == "static" and not f.get("interior"):
             immutable.append(f)     # a plain immutable static: no state
         else:
             unmodelled.append(f)
-    return modelled, immutable, unmodelled
+    return modelled, immutable, unmodelled, cells
 
 
-def groestl_cells(repo):
-    p = os.path.join(repo, "hashes", "groestl", "src", "compressor.rs")
-    if not os.path.exists(p):
-        return None
-    txt = blank_guarded(strip_comments(open(p).read()))
-    return len(re.findall(r"^\s*dispatch!\(", txt, flags=re.M))
+def _pub(f):
+    return {k: v for k, v in f.items() if k not in ("tok", "interior", "span", "at")}
 
 
 def run(ctx):
     vlib.standard_proof_stage(ctx)
     # (a) inventory of shared state
-    findings, files, probes = scan(vlib.REPO)
-    modelled, immutable, unmodelled = classify(vlib.REPO, findings)
-    cells = groestl_cells(vlib.REPO)
+    sources, findings, test_only, probes, build_scripts = scan(vlib.REPO)
+    modelled, immutable, unmodelled, cells = classify(sources, findings)
+    ok_cells = [c for c in cells if c["ok"]]
+    expansions = sum(c["expansions"] for c in ok_cells)
+    roles = {}
+    for s in sources:
+        roles[s.role] = roles.get(s.role, 0) + 1
+    files = roles.get("library", 0) + roles.get("build", 0)
     ctx.cov["global_state_scan"] = {
-        "repo": vlib.REPO, "files_scanned": files, "constructs_found": len(findings),
-        "modelled": modelled, "immutable_statics": immutable, "unmodelled": unmodelled,
-        "groestl_dispatch_expansions": cells, "groestl_dispatch_expansions_modelled": GROESTL_CELLS,
+        "repo": vlib.REPO, "files_scanned": files, "files_by_role": roles, "build_scripts": build_scripts,
+        "constructs_found": len(findings),
+        "modelled": [_pub(f) for f in modelled], "immutable_statics": [_pub(f) for f in immutable],
+        "unmodelled": [_pub(f) for f in unmodelled],
+        "constructs_in_test_only_files": [_pub(f) for f in test_only][:40],
+        "lazy_static_cells": [_pub(c) for c in cells],
+        "groestl_dispatch_expansions": expansions, "groestl_dispatch_expansions_modelled": GROESTL_CELLS,
         "is_x86_feature_detected_sites": probes,
+        "method": "own lexer (comments, strings, raw strings, char literals vs lifetimes), items behind cfg(test) / "
+                  "cfg(cryptocorrosion_verif) (alone, or inside all(..), or any(..) of only those) are skipped, nothing else; every .rs "
+                  "file of the repository except tests/ benches/ examples/ and cfg(test) modules not pulled in by a library file; "
+                  "#[path] / include! targets followed, computed targets reported; the modelled cells are recognised by shape",
     }
-    ctx.log("scan: %d files, %d constructs (%d modelled, %d immutable statics, %d unmodelled), %s lazy cells, %d feature probes"
-            % (files, len(findings), len(modelled), len(immutable), len(unmodelled), cells, probes))
+    ctx.log("scan: %d files (%s), %d constructs (%d modelled, %d immutable statics, %d unmodelled), %s lazy cells, %d feature probes"
+            % (files, ", ".join("%d %s" % (v, k) for k, v in sorted(roles.items())), len(findings), len(modelled), len(immutable),
+               len(unmodelled), expansions, probes))
     scan_problems = []
     by_line = {}
     for f in unmodelled:
         w = "%s:%d" % (f["file"], f["line"])
         if w in by_line:
-            by_line[w]["construct"] += " + " + f["construct"]
+            if f["construct"] not in by_line[w]["construct"].split(" + "):
+                by_line[w]["construct"] += " + " + f["construct"]
         else:
             by_line[w] = {"kind": "unmodelled-shared-state", "where": w, "construct": f["construct"], "text": f["text"]}
+            if f.get("why"):
+                by_line[w]["why"] = f["why"]
+            for c in cells:
+                if not c["ok"] and c["file"] == f["file"] and (f.get("tok") == c["at"] or c["span"][0] <= f.get("tok", -1) < c["span"][1]):
+                    by_line[w]["why"] = "a lazy_static! cell that is not of the modelled shape: " + c["why"]
             scan_problems.append(by_line[w])
-    if cells != GROESTL_CELLS:
-        scan_problems.append({"kind": "lazy-cell-inventory-changed", "where": "hashes/groestl/src/compressor.rs",
-                              "expected_dispatch_expansions": GROESTL_CELLS, "found": cells})
-    if len([m for m in modelled if m["construct"] == "lazy_static!"]) != 1 or len([m for m in modelled if m["construct"] == "static"]) != 1:
-        scan_problems.append({"kind": "lazy-cell-inventory-changed", "where": "hashes/groestl/src/compressor.rs",
-                              "note": "expected exactly one lazy_static! { static ref IMPL } site (the dispatch! macro); found %d lazy_static! / %d static ref IMPL" % (
-                                  len([m for m in modelled if m["construct"] == "lazy_static!"]), len([m for m in modelled if m["construct"] == "static"]))})
+    if expansions != GROESTL_CELLS:
+        scan_problems.append({"kind": "lazy-cell-inventory-changed", "where": MODEL_CRATE,
+                              "expected_cells": GROESTL_CELLS, "found": expansions, "cells": [_pub(c) for c in cells],
+                              "text": "the model has %d lazy function-pointer cells (tf/of/init x 512/1024); the sources have %d" % (GROESTL_CELLS, expansions)})
 
     # (b) stress runs
     nviol = len(ctx.violations)
     procs = 200 if ctx.quick else 1000
     rounds = 600 if ctx.quick else 6000
+    hammer = 2000 if ctx.quick else 8000      # short-operation iterations per cold process (divided among its threads)
     for profile in ("debug", "release"):
         binary, log = vlib.cargo_build(profile=profile, bin_name="h_conc")
         if binary is None:
             raise vlib.CheckError("harness build failed (h_conc %s): %s" % (profile, log[-2000:]))
-        s = vlib.correspondence(ctx, binary, "conc", ["--procs", procs, "--rounds", rounds], "host/%s" % profile)
-        ctx.log("host/%s: %d cold processes %s, %d thread results, %d interleaving rounds, %d failing" % (
+        s = vlib.correspondence(ctx, binary, "conc", ["--procs", procs, "--rounds", rounds, "--hammer", hammer], "host/%s" % profile)
+        ctx.log("host/%s: %d cold processes %s, %d thread results + %d hammer results, %d sequence results, %d interleaving rounds (%d ops: %s), %d failing" % (
             profile, s.get("cold_processes", 0), s.get("thread_counts"), s.get("thread_results_compared", 0),
-            s.get("interleaving_rounds", 0), s.get("failing_results", 0)))
+            s.get("hammer_results_compared", 0), s.get("sequence_results_compared", 0),
+            s.get("interleaving_rounds", 0), s.get("interleaving_ops", 0), s.get("interleaving_op_mix"), s.get("failing_results", 0)))
         vlib.decide_relative(ctx, s, theorem="C18_concurrent_complete / C18_interleaving_independent")
     if not ctx.quick:
         binary, log = vlib.cargo_build(features=("h1",), profile="release", bin_name="h_conc")
@@ -205,7 +766,7 @@ def run(ctx):
             ctx.assumptions.append("hook H1 not present at build time: back ends not forced, host dispatch only")
         else:
             for level in (1, 2, 3, 4, 5):
-                s = vlib.correspondence(ctx, binary, "conc", ["--procs", 80, "--rounds", 500, "--level", level],
+                s = vlib.correspondence(ctx, binary, "conc", ["--procs", 80, "--rounds", 500, "--hammer", hammer, "--level", level],
                                         "H1-level%d/release" % level)
                 ctx.log("H1 level %d/release: %d cold processes, %d thread results, %d failing" % (
                     level, s.get("cold_processes", 0), s.get("thread_results_compared", 0), s.get("failing_results", 0)))
